@@ -439,6 +439,10 @@ func runC07(c *Ctx) {
 		}
 		c.check(gate, key, errVal.Pos(), "err != nil leads to a nil result (with an error, R11.2)", "the strconv error does not lead to a nil result")
 	}
+
+	c.rule("R7.5", "the code-point encoder used for \\u escapes has RFC 3629's range boundaries, lengths, lead/continuation markers, shifts and masks (constants and shape, not arithmetic over sample values)")
+	c.floor(1)
+	ruleUTF8Encoder(c, lf)
 }
 
 func describeDanger(bad bset, D byte) string {
@@ -456,3 +460,239 @@ func describeDanger(bad bset, D byte) string {
 }
 
 var _ = types.Typ
+
+// ---- R7.5: the UTF-8 encoder's ranges and bit constants against RFC 3629 ------------------------------------------
+
+type utf8Row struct {
+	lo, hi int64
+	n      int
+	lead   int64
+}
+
+// RFC 3629 §3: the four forms, their code point ranges and lead-byte markers; continuation bytes are 10xxxxxx.
+var utf8Spec = []utf8Row{{0x0, 0x7F, 1, 0x00}, {0x80, 0x7FF, 2, 0xC0}, {0x800, 0xFFFF, 3, 0xE0}, {0x10000, 0x10FFFF, 4, 0xF0}}
+
+func ruleUTF8Encoder(c *Ctx, lf *lexFacts) {
+	c.buildSSA()
+	// the encoder: a function of package lexer func(int) []byte
+	var enc *ssa.Function
+	for _, f := range c.libFunctions("lexer") {
+		if f.Signature.Recv() != nil || len(f.Params) != 1 || f.Signature.Results().Len() != 1 || f.Parent() != nil {
+			continue
+		}
+		if b, ok := f.Params[0].Type().Underlying().(*types.Basic); !ok || b.Info()&types.IsInteger == 0 {
+			continue
+		}
+		if isByteSlice(f.Signature.Results().At(0).Type()) {
+			enc = f
+		}
+	}
+	if enc == nil {
+		// the standard library's encoder is the accepted alternative
+		uses := false
+		for _, f := range c.libFunctions("lexer") {
+			allInstrs(f, func(_ *ssa.BasicBlock, _ int, in ssa.Instruction) {
+				if call, ok := in.(*ssa.Call); ok {
+					if cal := call.Call.StaticCallee(); cal != nil && pkgPathOf(cal) == "unicode/utf8" {
+						uses = true
+					}
+				}
+			})
+		}
+		if uses {
+			c.ok("UTF-8 encoder", token.NoPos, "the lexer encodes code points with unicode/utf8")
+		} else {
+			c.unres("UTF-8 encoder", token.NoPos, "no func(int) []byte in package lexer and no use of unicode/utf8: the code-point encoder was not found")
+		}
+		return
+	}
+	par := enc.Params[0]
+	const inf = int64(1) << 40
+	type ret struct {
+		lo, hi int64
+		elems  []ssa.Value
+		pos    token.Pos
+	}
+	var rets []ret
+	unresolved := ""
+	var walk func(b *ssa.BasicBlock, lo, hi int64, depth int)
+	walk = func(b *ssa.BasicBlock, lo, hi int64, depth int) {
+		if lo > hi || depth > 40 {
+			return
+		}
+		last := b.Instrs[len(b.Instrs)-1]
+		switch x := last.(type) {
+		case *ssa.Return:
+			el, ok := sliceLitElems(x.Results[0])
+			if !ok {
+				unresolved = "a return value is not a byte slice literal"
+				return
+			}
+			rets = append(rets, ret{lo, hi, el, x.Pos()})
+		case *ssa.If:
+			bo, ok := x.Cond.(*ssa.BinOp)
+			if !ok {
+				unresolved = "branch on something other than a comparison of the code point with a constant"
+				return
+			}
+			op := bo.Op
+			var k int64
+			if bo.X == ssa.Value(par) {
+				kk, ok := constInt64(bo.Y)
+				if !ok {
+					unresolved = "comparison with a non-constant"
+					return
+				}
+				k = kk
+			} else if bo.Y == ssa.Value(par) {
+				kk, ok := constInt64(bo.X)
+				if !ok {
+					unresolved = "comparison with a non-constant"
+					return
+				}
+				k = kk
+				switch op { // k op cp  ==  cp op' k
+				case token.LSS:
+					op = token.GTR
+				case token.LEQ:
+					op = token.GEQ
+				case token.GTR:
+					op = token.LSS
+				case token.GEQ:
+					op = token.LEQ
+				}
+			} else {
+				unresolved = "branch on something other than the code point"
+				return
+			}
+			var tlo, thi, flo, fhi int64
+			switch op {
+			case token.LEQ:
+				tlo, thi, flo, fhi = lo, min64(hi, k), max64(lo, k+1), hi
+			case token.LSS:
+				tlo, thi, flo, fhi = lo, min64(hi, k-1), max64(lo, k), hi
+			case token.GEQ:
+				tlo, thi, flo, fhi = max64(lo, k), hi, lo, min64(hi, k-1)
+			case token.GTR:
+				tlo, thi, flo, fhi = max64(lo, k+1), hi, lo, min64(hi, k)
+			default:
+				unresolved = "comparison operator " + op.String()
+				return
+			}
+			walk(b.Succs[0], tlo, thi, depth+1)
+			walk(b.Succs[1], flo, fhi, depth+1)
+		default:
+			for _, s := range b.Succs {
+				walk(s, lo, hi, depth+1)
+			}
+		}
+	}
+	walk(enc.Blocks[0], 0, inf, 0)
+	if unresolved != "" {
+		c.unres(enc.Name()+": ranges", enc.Pos(), "%s (accepted: an if-chain comparing the code point with constants, each arm returning a byte slice literal; or unicode/utf8)", unresolved)
+		return
+	}
+	// every spec row is covered exactly by returns of the right length
+	for _, row := range utf8Spec {
+		key := fmt.Sprintf("%s: U+%04X..U+%04X -> %d byte(s)", enc.Name(), row.lo, row.hi, row.n)
+		covered := int64(0)
+		var problems []string
+		var pos token.Pos
+		for _, r := range rets {
+			lo, hi := max64(r.lo, row.lo), min64(r.hi, row.hi)
+			if lo > hi {
+				continue
+			}
+			covered += hi - lo + 1
+			pos = r.pos
+			if len(r.elems) != row.n {
+				problems = append(problems, fmt.Sprintf("code points U+%04X..U+%04X are encoded in %d byte(s)", lo, hi, len(r.elems)))
+				continue
+			}
+			for i, e := range r.elems {
+				orC, sh, mask, ok := utf8ByteShape(e, par)
+				wantOr, wantSh := int64(0x80), int64(6*(row.n-1-i))
+				if i == 0 {
+					wantOr = row.lead
+				}
+				switch {
+				case !ok:
+					problems = append(problems, fmt.Sprintf("byte %d is not of the form marker | byte((cp >> s) & mask)", i+1))
+				case orC != wantOr:
+					problems = append(problems, fmt.Sprintf("byte %d carries marker 0x%X, RFC 3629 requires 0x%X", i+1, orC, wantOr))
+				case sh != wantSh:
+					problems = append(problems, fmt.Sprintf("byte %d takes the code point shifted by %d, must be %d", i+1, sh, wantSh))
+				case i > 0 && mask != 0x3F:
+					problems = append(problems, fmt.Sprintf("continuation byte %d is masked with 0x%X, must be 0x3F", i+1, mask))
+				case i == 0 && mask != 0 && (row.hi>>uint(wantSh))&^mask != 0:
+					problems = append(problems, fmt.Sprintf("the lead byte's mask 0x%X cuts payload bits", mask))
+				}
+			}
+		}
+		if covered != row.hi-row.lo+1 {
+			problems = append(problems, fmt.Sprintf("only %d of %d code points of this range reach a return", covered, row.hi-row.lo+1))
+		}
+		if len(problems) > 0 {
+			c.bad(key, pos, "%s: the emitted bytes are not the UTF-8 encoding of the escape's code point", strings.Join(dedupSorted(problems), "; "))
+		} else {
+			c.ok(key, pos, "range boundaries, length, lead marker 0x%X, continuation marker 0x80, shifts and 6-bit masks as in RFC 3629", row.lead)
+		}
+	}
+}
+
+func min64(a, b int64) int64 {
+	if a < b {
+		return a
+	}
+	return b
+}
+func max64(a, b int64) int64 {
+	if a > b {
+		return a
+	}
+	return b
+}
+
+// utf8ByteShape matches  [marker |] byte( (cp [>> shift]) [& mask] )  in any association the compiler keeps.
+func utf8ByteShape(v ssa.Value, cp *ssa.Parameter) (orC, shift, mask int64, ok bool) {
+	if bo, isBo := v.(*ssa.BinOp); isBo && bo.Op == token.OR {
+		if k, isK := constInt64(bo.X); isK {
+			orC, v = k, bo.Y
+		} else if k, isK := constInt64(bo.Y); isK {
+			orC, v = k, bo.X
+		} else {
+			return 0, 0, 0, false
+		}
+	}
+	for {
+		if cv, isC := v.(*ssa.Convert); isC {
+			v = cv.X
+			continue
+		}
+		break
+	}
+	if bo, isBo := v.(*ssa.BinOp); isBo && bo.Op == token.AND {
+		if k, isK := constInt64(bo.Y); isK {
+			mask, v = k, bo.X
+		} else if k, isK := constInt64(bo.X); isK {
+			mask, v = k, bo.Y
+		} else {
+			return 0, 0, 0, false
+		}
+	}
+	if bo, isBo := v.(*ssa.BinOp); isBo && bo.Op == token.SHR {
+		k, isK := constInt64(bo.Y)
+		if !isK {
+			return 0, 0, 0, false
+		}
+		shift, v = k, bo.X
+	}
+	for {
+		if cv, isC := v.(*ssa.Convert); isC {
+			v = cv.X
+			continue
+		}
+		break
+	}
+	return orC, shift, mask, v == ssa.Value(cp)
+}
